@@ -65,8 +65,24 @@ def generate() -> None:
         _generate_x()
     except Exception as e:  # noqa: BLE001
         msg = (type(e).__name__ + ": " + str(e)).replace("\n", " ")[:300]
-        G.write("C19X.lean", "import Ptk.Model.C19Kw\n-- AST / table extraction from the current tree FAILED: "
-                + msg + "\nexample : False := by decide\n")
+        # a file that COMPILES with empty tables (the driver must build so that the correspondence still
+        # runs); every pin / *_follows_ast theorem of Props/C19Pins.lean fails on it
+        names = {"attrsFields": "List Text", "noinheritWord": "Text", "parseInit": "List Text",
+                 "parseChain": "List PBranch", "mergeDefaults": "List (Text × Text × Text)",
+                 "unpackOrder": "List Text", "encFlags": "List (Text × Nat)", "decShape": "List Text",
+                 "decFlags": "List (Nat × Text × Bool)", "decReset": "List (Text × Text)",
+                 "styleColours": "List (Text × Text)", "styleFlagWords": "List (Text × Text)",
+                 "classNamesRe": "Text", "priorities": "List (Text × Text)", "defaultPriority": "Text",
+                 "opposite": "List (Text × Text)", "uiSheets": "List (List (Text × Text))",
+                 "pygRules": "List (Text × Text)"}
+        b = ("import Ptk.Model.C19Transform\nimport Ptk.Model.C19Kw\nnamespace Ptk.Gen.C19X\nopen Ptk.C19\n"
+             "-- AST / table extraction from the current tree FAILED: " + msg + "\n")
+        for n, t in names.items():
+            b += f"def {n} : {t} := []\n"
+        b += ("def encFlagsOk : Bool := false\ndef styleStringOk : Bool := false\ndef adjustSkipsDefault : Bool := false\n"
+              "def trTables : TrTables := { opposite := opposite, adjustSkipsDefault := adjustSkipsDefault }\n"
+              "end Ptk.Gen.C19X\n")
+        G.write("C19X.lean", b)
 
 
 def _generate() -> None:
@@ -226,24 +242,29 @@ def _generate_x() -> None:
 
     # ---- _parse_style_str
     fn = _func_ast(sstyle._parse_style_str)
-    first_if = next(n for n in fn.body if isinstance(n, ast.If))
+    # (every piece that is not found is printed as a placeholder: the Gen file must still compile, so that
+    #  the DRIVER builds and the correspondence runs; the pins / *_follows_ast theorems then fail)
+    first_if = next((n for n in fn.body if isinstance(n, ast.If)), None)
     word = ""
-    t = first_if.test
-    if isinstance(t, ast.Compare) and isinstance(t.ops[0], ast.In) and _const(t.left, str) \
-            and _is_name(t.comparators[0], "style_str"):
-        word = t.left.value
     init = []
-    for body in (first_if.body, first_if.orelse):
-        if len(body) == 1 and isinstance(body[0], ast.Assign) and _is_name(body[0].targets[0], "attrs") \
-                and isinstance(body[0].value, ast.Name):
-            init.append(body[0].value.id)
-        else:
-            init.append("?")
+    if first_if is not None:
+        t = first_if.test
+        if isinstance(t, ast.Compare) and isinstance(t.ops[0], ast.In) and _const(t.left, str) \
+                and _is_name(t.comparators[0], "style_str"):
+            word = t.left.value
+        for body in (first_if.body, first_if.orelse):
+            if len(body) == 1 and isinstance(body[0], ast.Assign) and _is_name(body[0].targets[0], "attrs") \
+                    and isinstance(body[0].value, ast.Name):
+                init.append(body[0].value.id)
+            else:
+                init.append("?")
+    else:
+        init = ["no `if ... in style_str` before the loop"]
     b += "/-- styles/style.py _parse_style_str: the literal of `if \"…\" in style_str` and what `attrs` starts as -/\n"
     b += "def noinheritWord : Text := " + ltext(word) + "\n"
     b += "def parseInit : List Text := " + llist(ltext(x) for x in init) + "\n\n"
-    loop = next(n for n in fn.body if isinstance(n, ast.For))
-    ok_loop = (_is_name(loop.target, "part") and isinstance(loop.iter, ast.Call)
+    loop = next((n for n in fn.body if isinstance(n, ast.For)), None)
+    ok_loop = (loop is not None and _is_name(loop.target, "part") and isinstance(loop.iter, ast.Call)
                and isinstance(loop.iter.func, ast.Attribute) and loop.iter.func.attr == "split"
                and _is_name(loop.iter.func.value, "style_str") and not loop.iter.args
                and len(loop.body) == 1 and isinstance(loop.body[0], ast.If))
@@ -258,9 +279,9 @@ def _generate_x() -> None:
 
     # ---- _merge_attrs
     fn = _func_ast(sstyle._merge_attrs)
-    ret = next(n for n in fn.body if isinstance(n, ast.Return))
+    ret = next((n for n in fn.body if isinstance(n, ast.Return)), None)
     md = []
-    if isinstance(ret.value, ast.Call) and _is_name(ret.value.func, "Attrs"):
+    if ret is not None and isinstance(ret.value, ast.Call) and _is_name(ret.value.func, "Attrs"):
         for kw in ret.value.keywords:
             v = kw.value
             if (isinstance(v, ast.Call) and _is_name(v.func, "_or") and len(v.args) == 2
@@ -299,8 +320,8 @@ def _generate_x() -> None:
 
     # ---- ANSI._select_graphic_rendition
     fn = _func_ast(ansi.ANSI._select_graphic_rendition)
-    loop = next(n for n in fn.body if isinstance(n, ast.While))
-    chain_if = next(n for n in loop.body if isinstance(n, ast.If))
+    loop = next((n for n in fn.body if isinstance(n, ast.While)), None)
+    chain_if = next((n for n in (loop.body if loop is not None else []) if isinstance(n, ast.If)), None)
     shape, dec, reset = [], [], []
 
     def self_assigns(body):
@@ -313,7 +334,7 @@ def _generate_x() -> None:
                 return None
         return out
 
-    for test, body in _if_chain(chain_if):
+    for test, body in (_if_chain(chain_if) if chain_if is not None else []):
         if test is None:
             shape.append("else")
         elif isinstance(test, ast.Compare) and _is_name(test.left, "attr") and isinstance(test.ops[0], ast.In) \
